@@ -56,6 +56,13 @@ def run(rep, tier, seed):
     for k in range(10, 25):
         eneurons.append({"kind": "and", "act": "lukt", "b": ZERO, "w": [Fr(1, 8), ONE], "x": [ONE - Fr(1, 2 ** k), ONE]})
     cases.append({"clamp": edge, "neurons": eneurons})
+    # the instance neurons of quantifiers, saturated at either end and unsaturated
+    qrng = random.Random(sub_seed(seed, "c19q"))
+    qn = []
+    for _ in range(size(tier, 60, 600)):
+        k = qrng.randint(2, 5)
+        qn.append({"kind": qrng.choice(["forall", "exists"]), "x": [dy(qrng, 0, 1, 8) for _ in range(k)]})
+    cases.append({"clamp": [], "neurons": [], "qneurons": qn})
     recs = engine.run_cases("misc", "run_c19_batch", cases, chunksize=1)
     engine.model_outputs([r for r in recs if "lines" in r])
     ndis = ncmp = 0
@@ -81,6 +88,15 @@ def run(rep, tier, seed):
                 rep.violation("val_clamp", {"x": str(x), "value": str(val), "gradient": str(g),
                                             "expected_value": str(min(ONE, max(ZERO, x))), "expected_gradient": "1"},
                               {"x": str(x)})
+        for qd, got in zip(case.get("qneurons", []), r["meta"].get("qneurons", [])):
+            xs = qd["x"]
+            pre = (1 - sum(1 - x for x in xs)) if qd["kind"] == "forall" else sum(xs)
+            rep.count_case("q%s%s" % (qd["kind"], xs), pre < 0 or pre > 1)
+            if parse_q(got["value"]) != min(ONE, max(ZERO, pre)) or any(parse_q(g) != 1 for g in got["dx"]):
+                rep.violation("quantifier-neuron", {"quantifier": qd["kind"], "instances": list(map(str, xs)), "value": got["value"],
+                                                   "expected_value": str(min(ONE, max(ZERO, pre))), "d_value_d_instances": got["dx"],
+                                                   "expected_gradient": "1 for every instance (also when saturated)"},
+                              {"qneuron": streams.ser(qd)})
         for j, nrn in enumerate(case["neurons"]):
             io = r["meta"]["neuron_lines"][j].split()
             k += 1
